@@ -626,6 +626,9 @@ class Axes(AbstractAxes, list):
         if not isinstance(newax, Axis):
             newax = Axis(newax, getattr(newax, 'name', curax.name))
 
+        if newax.name != curax.name and newax.name in [ax.name for ax in self]:
+            raise ValueError("axis name already exist: {}".format(newax.name))
+
         # NOTE: think about it. Is that check necessary?
         if newax.size != curax.size:
             raise ValueError("set axis: size mismatch.\nExpected: {}, got: {}".format(curax.size, newax.size))
